@@ -21,6 +21,7 @@
 #include "inc/Segment.h"
 #include "inc/Slot.h"
 #include "inc/Collider.h"
+#include "inc/Rule.h"
 #undef private
 #undef protected
 
@@ -31,6 +32,13 @@ static std::map<const void *, int> g_ids;
 static int slot_id(const void *p) { if (!p) return -1; std::map<const void *, int>::iterator i = g_ids.find(p); if (i != g_ids.end()) return i->second; int n = (int)g_ids.size(); g_ids[p] = n; return n; }
 static std::string g_refs;
 static long g_loop_worst_num = 0, g_loop_worst_den = 1; static std::string g_loop_info;
+static bool g_ltrace = false; static std::string g_loops, g_growth; static long g_loop_events = 0;
+// the loop measure of Model/LoopModel.v: slots from the high-water mark to the end of the stream + remaining insert budget
+static long loop_mu(const void *smapp) {
+    const graphite2::SlotMap *sm = (const graphite2::SlotMap *)smapp;
+    long d = 0; for (const graphite2::Slot *q = sm->m_highwater; q && d < 1000000; q = q->next()) d++;
+    return d + (sm->m_maxSize > 0 ? sm->m_maxSize : 0);
+}
 
 static std::string snapshot(const graphite2::Segment *cseg) {
     graphite2::Segment *seg = const_cast<graphite2::Segment *>(cseg);
@@ -64,6 +72,15 @@ extern "C" void gr_verif_event(const char *op, const void *segp, const void *a, 
         if (x * g_loop_worst_den > g_loop_worst_num * bound) { g_loop_worst_num = x; g_loop_worst_den = bound ? bound : 1; }
         if (x > bound) { char t[128]; snprintf(t, sizeof t, " LOOPBOUND(iter=%ld,slots=%ld,maxloop=%ld)", x, slots, maxloop); g_loop_info += t; }
         return;
+    }
+    if (g_ltrace) {
+        char t2[96]; t2[0] = 0;
+        if (o == "passstart") snprintf(t2, sizeof t2, "/%ld,%ld:", y, loop_mu(b));
+        else if (o == "passiter") { if (++g_loop_events < 200000) snprintf(t2, sizeof t2, "%ld,%ld,%ld,%d;", loop_mu(b), x, y / 65536, a ? 1 : 0); }
+        else if (o == "insert") g_growth += 'i';
+        else if (o == "delete") g_growth += 'd';
+        else if (o == "passend") g_growth += 'p';
+        g_loops += t2;
     }
     if (!g_trace) return;
     char t[160]; t[0] = 0;
@@ -400,11 +417,13 @@ int main(int argc, char **argv) {
         if (f[10] == "nchars+") nchars += 3;
         bool want_trace = false;
         for (size_t k = 10; k < f.size(); k++) if (f[k] == "trace") want_trace = true;
+        g_ltrace = false; for (size_t k = 10; k < f.size(); k++) if (f[k] == "ltrace") g_ltrace = true;
+        g_loops.clear(); g_growth.clear(); g_loop_events = 0;
         g_events.clear(); g_ids.clear(); g_refs.clear(); g_loop_info.clear(); g_trace = want_trace;
         gr_segment *seg = gr_make_seg(font, face, 0, fv, ef, buf, nchars, dir);
-        g_trace = false;
+        g_trace = false; g_ltrace = false;
         std::string out;
-        if (!seg) out = "NULLSEG";
+        if (!seg) out = "NULLSEG" + (g_loops.empty() && g_growth.empty() ? std::string() : " | L " + (g_loops.empty() ? std::string("-") : g_loops) + " | G " + std::to_string(nchars) + ":" + g_growth);
         else {
             std::string first_dump = dump(seg, face, font, true);
             out = first_dump;
@@ -422,6 +441,7 @@ int main(int argc, char **argv) {
             for (size_t k = 10; k < f.size(); k++) {
                 const std::string &op = f[k];
                 if (op == "dump" || op == "nchars+" || op == "-" || op == "jtrace") continue;
+                if (op == "ltrace") { out += " | L " + (g_loops.empty() ? std::string("-") : g_loops) + " | G " + std::to_string(gr_seg_n_cinfo(seg)) + ":" + g_growth; continue; }
                 if (op == "redump") { out += " | " + dump(seg, face, font, true); continue; }     // the dump again, after the preceding ops
                 if (op == "posdump") {
                     // inputs and outputs of final positioning, for the C15 correspondence (Model/PosModel.v): design-unit inputs of every
